@@ -230,8 +230,14 @@ func (c *JSONClient) GetAndParse(ctx context.Context, path string, params map[st
 		return nil, nil, RspError{Err: fmt.Errorf("got HTTP Status %q", httpRsp.Status), StatusCode: httpRsp.StatusCode, Body: body}
 	}
 
-	if err := json.NewDecoder(bytes.NewReader(body)).Decode(rsp); err != nil {
+	dec := json.NewDecoder(bytes.NewReader(body))
+	if err := dec.Decode(rsp); err != nil {
 		return nil, nil, RspError{Err: err, StatusCode: httpRsp.StatusCode, Body: body}
+	}
+	// The whole body must be one JSON value: Decode stops after the first value
+	// and would silently accept whatever follows it.
+	if _, err := dec.Token(); err != io.EOF {
+		return nil, nil, RspError{Err: errors.New("unexpected data after JSON response"), StatusCode: httpRsp.StatusCode, Body: body}
 	}
 
 	return httpRsp, body, nil
